@@ -1024,14 +1024,18 @@ impl<Writer: Write> Muxer<Writer> {
         match self.video_track.codec {
             VideoCodec::H264 => {
                 // Check for IDR NAL (type 5)
-                let has_idr = AnnexBNalIter::new(data).any(|nal| (nal[0] & 0x1f) == 5);
+                // A NAL unit can be empty (two adjacent start codes): it has no header byte.
+                let has_idr = AnnexBNalIter::new(data)
+                    .any(|nal| nal.first().map(|b| (b & 0x1f) == 5).unwrap_or(false));
                 has_idr
             }
             VideoCodec::H265 => {
                 // Check for IDR NAL (type 19-21)
+                // A NAL unit can be empty (two adjacent start codes): it has no header byte.
                 let has_idr = AnnexBNalIter::new(data).any(|nal| {
-                    let nal_type = (nal[0] >> 1) & 0x3f;
-                    (19..=21).contains(&nal_type)
+                    nal.first()
+                        .map(|b| (19..=21).contains(&((b >> 1) & 0x3f)))
+                        .unwrap_or(false)
                 });
                 has_idr
             }
